@@ -212,7 +212,23 @@ func checkResult(res eng.Result, exp Expect) error {
 	if !lang.DeepEqual(res.Val, exp.Val) || res.Val.Inspect() != exp.Val.Inspect() {
 		return fmt.Errorf("expected %s, got %s", exp.Val.Describe(), res.Val.Describe())
 	}
+	// the printed form the engine itself gives the value (what a host, print()
+	// and string() see), not only the one recomputed from its structure
+	if res.Raw != nil && !exp.Val.HasKeyTies() {
+		if got := inspectRaw(res.Raw); got != exp.Val.Inspect() {
+			return fmt.Errorf("the value has the expected structure %s but the engine prints it as %s", exp.Val.Describe(), clip(got, 600))
+		}
+	}
 	return nil
+}
+
+func inspectRaw(o objectT) (s string) {
+	defer func() {
+		if r := recover(); r != nil {
+			s = fmt.Sprintf("<Inspect panicked: %v>", r)
+		}
+	}()
+	return o.Inspect()
 }
 
 // checkEffects compares host calls and resulting variables (after
